@@ -1,0 +1,198 @@
+//go:build verif
+
+package alphabet
+
+// Contracts for the deductive verifier in /verif (govc). This file is only
+// compiled with -tags verif; it adds no behaviour to the package.
+
+//@ spec lower(b int) int = (65 <= b && b <= 90) ? b + 32 : b
+//@ spec upper(b int) int = (97 <= b && b <= 122) ? b - 32 : b
+//@ spec ascii(s string) bool = forall k int :: 0 <= k && k < len(s) ==> s[k] < 128
+//@ spec key(b int, cased bool) int = cased ? b : lower(b)
+//@ spec matches(l int, b int, cased bool) bool = cased ? b == l : (b == lower(l) || b == upper(l))
+//@ spec inDef(s string, b int, cased bool) bool = exists k int :: 0 <= k && k < len(s) && matches(s[k], b, cased)
+//@ spec distinctDef(s string, cased bool) bool = forall i int, j int :: 0 <= i && i < j && j < len(s) ==> key(s[i], cased) != key(s[j], cased)
+
+//@ func newAlphabet
+//@   property C17
+//@   ensures [reject]  !ascii(letters) ==> result1 != nil && result0 == nil
+//@   ensures [accept]   ascii(letters) ==> result1 == nil && result0 != nil && fresh(result0)
+//@   ensures [fields]  result1 == nil ==> result0.length == len(letters) && result0.caseSensitive == caseSensitive && result0.gap == gap && result0.ambiguous == ambiguous && result0.molType == molType
+//@   ensures [valid]   result1 == nil ==> forall b int :: 0 <= b && b < 256 ==> (result0.valid[b] <==> inDef(letters, b, caseSensitive))
+//@   ensures [invalid] result1 == nil ==> forall b int :: 0 <= b && b < 256 && !result0.valid[b] ==> result0.index[b] == -1
+//@   ensures [index]   result1 == nil ==> forall b int :: 0 <= b && b < 256 && result0.valid[b] ==> 0 <= result0.index[b] && result0.index[b] < len(letters) && matches(letters[result0.index[b]], b, caseSensitive)
+//@   ensures [letters-cased]   result1 == nil && caseSensitive ==> len(result0.letters) == len(letters) && forall i int :: 0 <= i && i < len(letters) ==> result0.letters[i] == letters[i]
+//@   ensures [letters-uncased] result1 == nil && !caseSensitive ==> len(result0.letters) == 2*len(letters) && forall i int :: 0 <= i && i < len(letters) ==> result0.letters[i] == lower(letters[i]) && result0.letters[len(letters)+i] == upper(letters[i])
+//@   assigns fresh
+//@   loop 1 invariant 0 <= idx && idx <= 256 && forall k int :: 0 <= k && k < idx ==> a.index[k] == -1
+//@   loop 1 invariant forall b int :: 0 <= b && b < 256 ==> !a.valid[b]
+//@   loop 2 invariant 0 <= idx && idx <= len(letters) && a.letters == letters
+//@   loop 2 invariant forall b int :: 0 <= b && b < 256 ==> (a.valid[b] <==> exists k int :: 0 <= k && k < idx && letters[k] == b)
+//@   loop 2 invariant forall b int :: 0 <= b && b < 256 && !a.valid[b] ==> a.index[b] == -1
+//@   loop 2 invariant forall b int :: 0 <= b && b < 256 && a.valid[b] ==> 0 <= a.index[b] && a.index[b] < idx && letters[a.index[b]] == b
+//@   loop 3 invariant 0 <= idx && idx <= len(letters) && len(a.letters) == 2*len(letters)
+//@   loop 3 invariant forall i int :: 0 <= i && i < len(letters) ==> a.letters[i] == lower(letters[i]) && a.letters[len(letters)+i] == upper(letters[i])
+//@   loop 3 invariant forall b int :: 0 <= b && b < 256 ==> (a.valid[b] <==> exists k int :: 0 <= k && k < idx && lower(letters[k]) == b)
+//@   loop 3 invariant forall b int :: 0 <= b && b < 256 && !a.valid[b] ==> a.index[b] == -1
+//@   loop 3 invariant forall b int :: 0 <= b && b < 256 && a.valid[b] ==> 0 <= a.index[b] && a.index[b] < idx && lower(letters[a.index[b]]) == b
+//@   loop 4 invariant 0 <= idx && idx <= len(letters) && len(a.letters) == 2*len(letters)
+//@   loop 4 invariant forall i int :: 0 <= i && i < len(letters) ==> a.letters[i] == lower(letters[i]) && a.letters[len(letters)+i] == upper(letters[i])
+//@   loop 4 invariant forall b int :: 0 <= b && b < 256 ==> (a.valid[b] <==> ((exists k int :: 0 <= k && k < len(letters) && lower(letters[k]) == b) || (exists k int :: 0 <= k && k < idx && upper(letters[k]) == b)))
+//@   loop 4 invariant forall b int :: 0 <= b && b < 256 && !a.valid[b] ==> a.index[b] == -1
+//@   loop 4 invariant forall b int :: 0 <= b && b < 256 && a.valid[b] ==> 0 <= a.index[b] && a.index[b] < len(letters) && (lower(letters[a.index[b]]) == b || upper(letters[a.index[b]]) == b)
+
+// ---- accessors ---------------------------------------------------------------
+//@ func (*alpha).IsValid
+//@   property C17
+//@   pure
+//@   requires a != nil
+//@   ensures result == a.valid[n]
+//@ func (*alpha).IndexOf
+//@   property C17
+//@   pure
+//@   requires a != nil
+//@   ensures result == a.index[n]
+//@ func (*alpha).Len
+//@   property C17
+//@   pure
+//@   requires a != nil
+//@   ensures result == a.length
+//@ func (*alpha).Letter
+//@   property C17
+//@   pure
+//@   requires a != nil && 0 <= i && i < a.length && a.length <= len(a.letters)
+//@   ensures result == a.letters[i]
+//@ func (*alpha).AllValid
+//@   property C17
+//@   pure
+//@   requires a != nil
+//@   ensures [ok]    result0 <==> forall i int :: 0 <= i && i < len(n) ==> a.valid[n[i]]
+//@   ensures [neg]   result0 ==> result1 < 0
+//@   ensures [first] !result0 ==> 0 <= result1 && result1 < len(n) && !a.valid[n[result1]] && forall i int :: 0 <= i && i < result1 ==> a.valid[n[i]]
+//@   loop 1 invariant 0 <= idx && idx <= len(n) && forall k int :: 0 <= k && k < idx ==> a.valid[n[k]]
+//@ func (*alpha).AllValidQLetter
+//@   property C17
+//@   pure
+//@   requires a != nil
+//@   ensures [ok]    result0 <==> forall i int :: 0 <= i && i < len(n) ==> a.valid[n[i].L]
+//@   ensures [neg]   result0 ==> result1 < 0
+//@   ensures [first] !result0 ==> 0 <= result1 && result1 < len(n) && !a.valid[n[result1].L] && forall i int :: 0 <= i && i < result1 ==> a.valid[n[i].L]
+//@   loop 1 invariant 0 <= idx && idx <= len(n) && forall k int :: 0 <= k && k < idx ==> a.valid[n[k].L]
+
+// IndexOf and Letter are mutually inverse on 0..Len-1 for definitions made of distinct letters.
+//@ func verifLemmaIndexOfLetter
+//@   property C17
+//@   lemma
+//@   requires ascii(letters) && distinctDef(letters, cased) && 0 <= i && i < len(letters)
+//@   ensures result == i
+func verifLemmaIndexOfLetter(letters string, cased bool, i int) int {
+	a, err := newAlphabet(letters, 0, '-', 'n', cased)
+	if err != nil {
+		return -1
+	}
+	return a.IndexOf(a.Letter(i))
+}
+
+// A valid letter maps to an index whose letter is the letter itself (lower case for case-insensitive alphabets);
+// an invalid letter has a negative index.
+//@ func verifLemmaLetterOfIndex
+//@   property C17
+//@   lemma
+//@   requires ascii(letters)
+//@   ensures [valid]   ok ==> r == key(l, cased)
+//@   ensures [invalid] !ok ==> r < 0
+func verifLemmaLetterOfIndex(letters string, cased bool, l Letter) (r int, ok bool) {
+	a, err := newAlphabet(letters, 0, '-', 'n', cased)
+	if err != nil {
+		return -1, false
+	}
+	if !a.IsValid(l) {
+		return a.IndexOf(l), false
+	}
+	return int(a.Letter(a.IndexOf(l))), true
+}
+
+// ---- pairings -------------------------------------------------------------------
+//@ spec inStr(s string, b int) bool = exists k int :: 0 <= k && k < len(s) && s[k] == b
+//@ spec wfPairing(p *Pairing) bool = p != nil && len(p.pair) == 256 && len(p.ok) == 256 && arr(p.pair) != arr(p.ok)
+//@        && (forall b int :: 0 <= b && b < 256 ==> 0 <= p.pair[b] && p.pair[b] < 256 && p.pair[p.pair[b]] == b)
+//@        && (forall b int :: 0 <= b && b < 256 && p.ok[b] ==> p.ok[p.pair[b]])
+//@        && (forall b int :: 0 <= b && b < 256 && !p.ok[b] ==> p.pair[b] == b)
+//@        && (forall b int :: 0 <= b && b < 128 ==> p.pair[b] < 128)
+//@        && (forall b int :: 128 <= b && b < 256 ==> !p.ok[b])
+//@        && (forall b int :: 0 <= b && b < 256 ==> p.complements[b] == (p.ok[b] ? p.pair[b] : (b < 128 ? b + 128 : b)))
+
+//@ func NewPairing
+//@   property C17
+//@   requires ascii(s) && ascii(c)
+//@   ensures [mismatch]   len(s) != len(c) ==> result1 != nil
+//@   ensures [wf]         result1 == nil ==> fresh(result0) && wfPairing(result0)
+//@   ensures [ok]         result1 == nil ==> forall b int :: 0 <= b && b < 256 ==> (result0.ok[b] <==> inStr(s, b))
+//@   ensures [pairs]      result1 == nil ==> forall b int :: 0 <= b && b < 256 && result0.ok[b] ==> exists k int :: 0 <= k && k < len(s) && s[k] == b && result0.pair[b] == c[k]
+//@   ensures [ascii-tab]  result1 == nil ==> forall b int :: 0 <= b && b < 128 ==> result0.pair[b] < 128
+//@   assigns fresh
+//@   loop 1 invariant 0 <= idx && idx <= 256 && len(p.pair) == 256 && len(p.ok) == 256 && arr(p.pair) != arr(p.ok) && fresh(p) && fresh(p.pair) && fresh(p.ok)
+//@   loop 1 invariant forall k int :: 0 <= k && k < idx ==> p.pair[k] == k
+//@   loop 1 invariant forall b int :: 0 <= b && b < 256 ==> !p.ok[b]
+//@   loop 2 invariant 0 <= idx && idx <= len(s) && len(p.pair) == 256 && len(p.ok) == 256 && arr(p.pair) != arr(p.ok) && fresh(p) && fresh(p.pair) && fresh(p.ok) && disjoint(cr, p.pair)
+//@   loop 2 invariant len(cr) == len(c) && forall k int :: 0 <= k && k < len(c) ==> cr[k] == c[k]
+//@   loop 2 invariant forall b int :: 0 <= b && b < 256 ==> 0 <= p.pair[b] && p.pair[b] < 256
+//@   loop 2 invariant forall b int :: 0 <= b && b < 128 ==> p.pair[b] < 128
+//@   loop 2 invariant forall b int :: 0 <= b && b < 256 ==> (p.ok[b] <==> exists k int :: 0 <= k && k < idx && s[k] == b)
+//@   loop 2 invariant forall b int :: 0 <= b && b < 256 && !p.ok[b] ==> p.pair[b] == b
+//@   loop 2 invariant forall b int :: 0 <= b && b < 256 && p.ok[b] ==> exists k int :: 0 <= k && k < idx && s[k] == b && p.pair[b] == c[k]
+//@   loop 3 invariant 0 <= idx && idx <= len(s)
+//@   loop 3 invariant forall k int :: 0 <= k && k < idx ==> p.pair[p.pair[s[k]]] == s[k]
+//@   loop 4 invariant 0 <= idx && idx <= 256
+//@   loop 4 invariant forall k int :: 0 <= k && k < idx ==> p.complements[k] == (p.ok[k] ? p.pair[k] : (p.pair[k] < 128 ? p.pair[k] + 128 : p.pair[k]))
+//@   loop 4 invariant forall k int :: idx <= k && k < 256 ==> p.complements[k] == p.pair[k]
+
+//@ func (*Pairing).Complement
+//@   property C17
+//@   pure
+//@   requires wfPairing(p)
+//@   ensures c == p.pair[l] && ok == p.ok[l]
+//@ func (*Pairing).ComplementTable
+//@   property C17
+//@   requires wfPairing(p)
+//@   ensures len(result) == 256 && forall b int :: 0 <= b && b < 256 ==> result[b] == p.complements[b]
+//@   assigns nothing
+
+// The method form and the table form agree on every paired letter, and the table marks unpaired letters with a non-ASCII value.
+//@ func verifLemmaComplementAgree
+//@   property C17
+//@   lemma
+//@   requires wfPairing(p)
+//@   ensures [paired]   ok ==> t == m
+//@   ensures [unpaired] !ok && l < 128 ==> t >= 128 && m == l
+func verifLemmaComplementAgree(p *Pairing, l Letter) (m Letter, ok bool, t Letter) {
+	m, ok = p.Complement(l)
+	t = p.ComplementTable()[l]
+	return
+}
+
+// Complement is an involution that keeps paired letters paired.
+//@ func verifLemmaComplementInvolution
+//@   property C17
+//@   lemma
+//@   requires wfPairing(p)
+//@   ensures back == l && (ok1 ==> ok2)
+func verifLemmaComplementInvolution(p *Pairing, l Letter) (back Letter, ok1, ok2 bool) {
+	var m Letter
+	m, ok1 = p.Complement(l)
+	back, ok2 = p.Complement(m)
+	return
+}
+
+// ---- complementing alphabets ---------------------------------------------------
+//@ func NewComplementor
+//@   property C17
+//@   requires pairs == nil || wfPairing(pairs)
+//@   ensures [reject]  !ascii(letters) ==> result1 != nil && result0 == nil
+//@   ensures [type]    result1 == nil ==> typeis(result0, *nucleic) && fresh(ref(result0)) && result0.(*nucleic).Pairing == pairs && result0.(*nucleic).alpha != nil && fresh(result0.(*nucleic).alpha)
+//@   ensures [valid]   result1 == nil ==> forall b int :: 0 <= b && b < 256 ==> (result0.(*nucleic).alpha.valid[b] <==> inDef(letters, b, caseSensitive))
+//@   ensures [index]   result1 == nil ==> forall b int :: 0 <= b && b < 256 && result0.(*nucleic).alpha.valid[b] ==> 0 <= result0.(*nucleic).alpha.index[b] && result0.(*nucleic).alpha.index[b] < len(letters) && matches(letters[result0.(*nucleic).alpha.index[b]], b, caseSensitive)
+//@   ensures [complement-valid] result1 == nil && pairs != nil ==> forall b int :: 0 <= b && b < 256 && result0.(*nucleic).alpha.valid[b] && pairs.ok[b] ==> result0.(*nucleic).alpha.valid[pairs.pair[b]]
+//@   assigns fresh
+//@   loop 1 invariant 0 <= idx && idx <= 256
+//@   loop 1 invariant forall k int :: 0 <= k && k < idx && pairs.ok[k] && pairs.pair[k] != k ==> a.valid[k] && a.valid[pairs.pair[k]]
